@@ -96,6 +96,20 @@ static size_t alloc_run(long hno, int maxlen, int record) {
       al_sink += CS_Total((int)xv_below(&r, 4) - 2, xv_below(&r, 2) ? -1.0 : 1e9, &e);
       if (e) { xrl_error *c = xrl_error_copy(e), *d = NULL; if (xv_below(&r, 2)) { xrl_propagate_error(&d, e); e = NULL; PUT(T_ERR, d); } else { xrl_clear_error(&e); }
         if (c) { if (xv_below(&r, 2)) PUT(T_ERR, c); else xrl_propagate_error(NULL, c); } }
+      if (xv_below(&r, 3) == 0) {      /* a caller that REUSES a slot which is already set (a loop that forgot to clear it): the library keeps the first error, says so on
+                                        * stderr and must release the new one - literal and formatted messages, object-valued and numeric calls */
+        xrl_error *e5 = NULL; int j, m = 1 + (int)xv_below(&r, 4);
+        al_sink += CS_Total(-1, 1.0, &e5);
+        for (j = 0; j < m && e5; j++) switch (xv_below(&r, 6)) {
+          case 0: { struct compoundDataNIST *c5 = GetCompoundDataNISTByName("no such compound", &e5); if (c5) FreeCompoundDataNIST(c5); break; }
+          case 1: { Crystal_Struct *c5 = Crystal_GetCrystal("Unobtainium", NULL, &e5); if (c5) Crystal_Free(c5); break; }
+          case 2: { struct compoundData *c5 = CompoundParser("Xx2O", &e5); if (c5) FreeCompoundData(c5); break; }
+          case 3: { struct radioNuclideData *c5 = GetRadioNuclideDataByIndex(-7, &e5); if (c5) FreeRadioNuclideData(c5); break; }
+          case 4: al_sink += CS_Photo(26, -1.0, &e5); break;
+          default: { char *s5 = AtomicNumberToSymbol(-3, &e5); if (s5) xrlFree(s5); break; }
+        }
+        if (e5) { if (xv_below(&r, 2)) xrl_clear_error(&e5); else { xrl_error *d5 = NULL; xrl_propagate_error(&d5, e5); PUT(T_ERR, d5); } }
+      }
     } else if (op < 88) {                                          /* crystals */
       Crystal_Struct *c = NULL;
       if (record) { LAST("crystal api"); TR("cr;"); }
